@@ -35,6 +35,8 @@ def obj_roots(p, obj, depth=0):
 def run(rep, tier):
     rep.rule("R-C11-target", "INTERNAL_invoke_with_func_ptr calls the backend's impl_invoke_with_func_ptr exactly once per path, outside any loop, with the func_ptr parameter as the function to call")
     rep.rule("R-C11-args", "argument i of the backend call is derived from parameter i of the invocation and from no other parameter (pack expansion order and one-to-one routing); a null pointer argument is passed as 0")
+    rep.rule("R-C11-abi", "every argument expression handed to the backend call has the size the parameter's type has under the sandbox ABI (independent ABI model): an argument that still has its "
+             "application representation (e.g. a 64-bit long for a 32-bit guest long) would be narrowed silently by the backend's own call instead of being range-checked")
     rep.rule("R-C11-result", "a non-void result is converted from the backend call's return value, pointers with this sandbox instance (impl_get_unsandboxed_pointer on this), and wrapped in a fresh tainted")
     rep.rule("R-C11-byname", "by-name mode passes lookup_symbol(func_name) of the same func_name and forwards every argument in order")
     rep.rule("R-C11-cache", "the symbol cache is a non-static member; a miss stores the backend result under the key that was looked up inside the unique guard and returns it; a hit returns the cached value of that key; "
@@ -51,6 +53,17 @@ def run(rep, tier):
         n[k] = n.get(k, 0) + 1
 
     fillers = {}
+    rep.rule("R-C11-kind", "a pointer argument or result is translated by the backend hook instantiated for ITS static type (data pointer vs function pointer) and in the direction / context the conversion was asked for "
+             "(shared analysis with C04's R-C04-route): a function pointer swizzled as a data pointer is delivered as garbage by backends that keep function tables")
+    from . import c04 as _c04
+    from ..report import RuleView
+    for db in dbs:
+        for f in db.functions:
+            if not f["dep"] and "body" in f and f["n"] == "rlbox::detail::convert_type_non_class":
+                try:
+                    _c04.check_route(RuleView(rep, {"R-C04-route": "R-C11-kind"}), db, f, "%s | %s" % (db.label, f["full"][:150]))
+                except Inconclusive as ex:
+                    rep.inconclusive("R-C11-kind", site(f), str(ex), "%s | %s" % (db.label, f["full"][:150]))
     for db in dbs:
         rep.units.append(db.label)
         for r in db.records:
@@ -103,6 +116,62 @@ def run(rep, tier):
         rep.require(n.get(k, 0) >= v, "only %d instances for rule group '%s' (floor %d)" % (n.get(k, 0), k, v))
     rep.extra["instances"] = n
     rep.assumptions += ["value faithfulness per argument kind is decided by C04/C06/C08; this check decides routing, order, multiplicity and identity", "the dynamic loader resolves names as documented"]
+
+
+def backend_call_nodes(x, out):
+    if isinstance(x, dict):
+        if x.get("k") == "call" and ((x.get("fn") or {}).get("n") or "").split("::")[-1] == "impl_invoke_with_func_ptr":
+            out.append(x)
+        for v in x.values():
+            if isinstance(v, (dict, list)):
+                backend_call_nodes(v, out)
+    elif isinstance(x, list):
+        for v in x:
+            backend_call_nodes(v, out)
+
+
+def unwrapped_type_name(t):
+    """canonical spelling of T for a parameter of type T / tainted<T,S> / tainted_volatile<T,S> / tainted_opaque<T,S> / sandbox_callback<T,S>"""
+    from .c04 import first_targ
+    c = ((t or {}).get("u") or (t or {}).get("c") or "").replace("const ", "").strip()
+    for w in ("rlbox::tainted_volatile<", "rlbox::tainted_opaque<", "rlbox::tainted<", "rlbox::sandbox_callback<"):
+        if c.startswith(w):
+            return first_targ(c)
+    return c
+
+
+def check_arg_representation(rep, db, f, inst):
+    """R-C11-abi (type-level, on the instantiated AST): sizeof(argument expression) == guest size of the parameter's type"""
+    from .. import abi
+    calls = []
+    backend_call_nodes(f["body"], calls)
+    a = abi.abi_of(db.label)
+    checked = 0
+    for c in calls:
+        args = (c.get("args") or [])
+        args = args[1:] if (c.get("opcall") and c.get("member")) else args
+        args = args[1:]    # the function pointer
+        params = f["params"][2:]
+        if len(args) != len(params):
+            continue
+        for k, (ae, pr) in enumerate(zip(args, params)):
+            tn = unwrapped_type_name(pr.get("t"))
+            if not tn or "nullptr_t" in tn:
+                continue
+            try:
+                want = abi.size_align(db, tn, a)[0]
+            except abi.Unknown:
+                continue
+            got = (ae.get("t") or {}).get("sz")
+            if got is None:
+                continue
+            checked += 1
+            if got != want:
+                rep.violation("R-C11-abi", site(f), "argument %d (parameter type '%s') is handed to the backend as '%s' (%d bytes); under the sandbox ABI the parameter occupies %d bytes: the value keeps its application "
+                              "representation and is narrowed by the backend's own call without a range check" % (k, tn, (ae.get("t") or {}).get("c"), got, want), c.get("loc") or f["loc"], inst)
+                return
+    if checked:
+        rep.ok("R-C11-abi", site(f), "%d arguments have their sandbox-ABI size" % checked, inst)
 
 
 def check_invoke(rep, db, f, inst):
@@ -177,6 +246,7 @@ def check_invoke(rep, db, f, inst):
                 return
     rep.ok("R-C11-target", site(f), "one backend call per path with func_ptr", inst)
     rep.ok("R-C11-args", site(f), "%d arguments routed one-to-one in order" % len(pack), inst, nontrivial=len(pack) > 0)
+    check_arg_representation(rep, db, f, inst)
     if not void_ret:
         rep.ok("R-C11-result", site(f), "result converted from the backend return value", inst)
 
